@@ -42,7 +42,7 @@ def run(ctx, clause, scenarios, nontrivial=nontrivial_default, names_for=None, w
         ctx.traces += 1
         sc = by_id.get(o["sc"]["id"])
         ctx.case((o["sc"]["id"], o["driver"]), nontrivial(sc) if sc else True)
-        if (o["exit"] == 0) != v["expectOk"] and o["exit"] >= 0:
+        if (o["exit"] == 0) != v["expectOk"] and o["exit"] >= 0 and "point" not in o["_run"]:
             ctx.drift.append({"id": v["id"], "driver": v["driver"], "exit": o["exit"], "model_expect_ok": v["expectOk"],
                               "stderr": o["_run"]["stderr"][-200:]})
         for c in v["viol"]:
@@ -60,6 +60,15 @@ def run(ctx, clause, scenarios, nontrivial=nontrivial_default, names_for=None, w
     if ctx.drift:
         log("MODEL-DRIFT: %d runs whose exit status differs from the Layer-A prediction (see evidence)" % len(ctx.drift))
     return obs, verdicts
+
+def nonvacuity(ctx, scenarios, expect_inv):
+    """The model must be able to express the defects it is meant to exclude: with the named deviations switched on,
+    TLC has to find a violation on these scenarios."""
+    r = nsplane.model_check(scenarios, workers=4, cfg="MC_NS_dev.cfg")
+    ctx.tlc("XcpNS with Deviations on (non-vacuity)", r)
+    ctx.notes["deviation_run_violates"] = r.violated or "nothing"
+    if not r.violated:
+        raise ToolError("non-vacuity check failed: the model with deviations enabled violates nothing on %d scenarios" % len(scenarios))
 
 def replay(ctx, clause, path):
     rep = json.load(open(path))["replay"]
